@@ -229,6 +229,11 @@ def decideItem (r : Regs) : Out (Option Item) :=
         | none => .ok (some ⟨some l, none⟩)
       else .ok (some ⟨some l, some l⟩)
 
+/-- the decided item joins the items found so far unless it overlaps one of them -/
+def addItem (acc : Items) : Option Item → Out Items
+  | none => .ok acc
+  | some it => if acc.any (fun old => itemsOverlap old it) then .error .iface else .ok (acc ++ [it])
+
 /-- the outer `while not end_reached` loop -/
 def parseTokens : Nat → List Tok → Items → Out Items
   | 0, _, _ => .error .unsupported
@@ -239,10 +244,7 @@ def parseTokens : Nat → List Tok → Items → Out Items
       match decideItem r with
       | .error e => .error e
       | .ok res =>
-        let acc' : Out Items := match res with
-          | none => .ok acc
-          | some it => if acc.any (fun old => itemsOverlap old it) then .error .iface else .ok (acc ++ [it])
-        match acc' with
+        match addItem acc res with
         | .error e => .error e
         | .ok a => if last.isEof then .ok a else parseTokens fuel rest a
 
